@@ -75,6 +75,37 @@ impl Frame {
     }
 }
 
+/// Frames with algebraic structure with respect to the generator: for every byte count p, the first p bytes are
+/// themselves a multiple of the generator (p-3 leading bytes followed by their own CRC-24), the rest is filled
+/// with 0x00 / 0xFF / 0x5A; each both as it stands and with its last 24 bits sealed to `ap`.
+/// (A CRC routine that works word by word, skips zero registers or uses look-up tables is most likely to go
+/// wrong exactly here.) `lead` gives the leading bytes to draw from (its first byte fixes the format).
+pub fn crc_structured(lead: &[u8], nbits: u32, ap: u32) -> Vec<Frame> {
+    let nbytes = (nbits / 8) as usize;
+    let mut out = vec![];
+    for p in 4..=(nbytes - 1) {
+        let k = p - 3; // leading bytes
+        let mut head: u128 = 0;
+        for i in 0..k {
+            head = (head << 8) | *lead.get(i).unwrap_or(&0xA5) as u128;
+        }
+        let c = crc24(head, (k * 8) as u32) as u128;
+        let prefix = (head << 24) | c; // p bytes, divisible by the generator
+        for fill in [0x00u8, 0xFF, 0x5A] {
+            let mut v = prefix;
+            for _ in p..nbytes {
+                v = (v << 8) | fill as u128;
+            }
+            let f = Frame { v, nbits };
+            out.push(f);
+            let mut g = f;
+            g.seal(ap);
+            out.push(g);
+        }
+    }
+    out
+}
+
 /// remainder of data(x)·x^24 modulo the generator; `nbits` data bits, MSB first
 pub fn crc24(data: u128, nbits: u32) -> u32 {
     let mut reg: u32 = 0;
